@@ -14,7 +14,7 @@ import tempfile
 
 import numpy as np
 
-from .. import carrier, cover, emmon, gen, ref, world
+from .. import carrier, core, cover, emmon, gen, ref, world
 from . import c13
 
 LEVEL = 'exploration'
@@ -23,7 +23,7 @@ REQUIRED_MONITORS = ('output_vs_truth', 'map_call_log', 'early_extrapolation_ref
 REQUIRED_CLASSES = ('species:unmapped-interleaved', 'solvent', 'box:triclinic', 'box:rect', 'ref:1-atom', 'ref:2-atoms',
                     'ref:general', 'multi-residue', 'order:random', 'order:blocks', 'order:alternating', 'shipped-bmim-bf4',
                     'early:no-maps', 'early:no-end-molecules', 'early:partial-maps', 'residue-numbers:gaps-inside-a-mapped-multi-residue-molecule', 'output-atoms:>=100000', 'target:one-atom-first-in-file', 'species:homopolymer-neighbours',
-                    'carrier:relative-path', 'carrier:handle', 'carrier:handle-relative-then-chdir')
+                    'carrier:relative-path', 'carrier:handle', 'carrier:handle-relative-then-chdir', 'settings:warnings-as-errors')
 RULE = ('generated systems: 2-4 species (1-, 2-, many-bead; single and multi-residue) + solvent, 1..60 instances each in '
         'random/blocked/alternating order, a random non-empty subset of species given an end molecule, rectangular and '
         'triclinic boxes, s in {0.3,0.5,1,1.5}; plus the shipped BMIM/BF4 box. Non-trivial: at least two mapped species or a '
@@ -275,7 +275,11 @@ def _run_gen(ctx, case, stack):
                 os.remove(out)
         man.calculate_exchange_maps(scale_factor=s)
         del _log['calls'][:]
-        man.extrapolate_system(out)
+        # the caller may run with warnings turned into errors: the unchanged library writes the file without a word
+        caller = core.next_settings(ctx, ('default', 'warnings-as-errors'))
+        wit['caller_settings'] = caller
+        with core.settings(caller):
+            man.extrapolate_system(out)
     except Exception as exc:  # noqa
         ctx.violation(f'pipeline-raises:{type(exc).__name__}', str(exc)[:300], witness=wit)
         shutil.rmtree(root, ignore_errors=True)
